@@ -1,9 +1,12 @@
 """C18 Broad-phase choice does not change contacts.
 
 Space: {NXN, SAP_TILE, SAP_SEGMENTED} x all 16 broadphase_filter masks (48 configurations) on
- (a) C04's pair scenes (every geom-type pair x 2 orientations x (margin, gap); 6 separations = 6 worlds),
+ (a) C04's pair scenes (every geom-type pair x 2 orientations x (margin, gap); 6 separations + 2 poses with B's bounding
+     sphere wholly behind A's supporting plane = 8 worlds), and the same type pairs with the static geom A declared AFTER
+     B's body (on a mocap body / static child body), so that the static geom (e.g. a plane) has the HIGHER geom id,
  (b) 5-geom scenes (plane + 4 mixed geoms) in three layouts: a row along the fixed SAP sweep axis, a row orthogonal
-     to it (coincident SAP projections), a cluster with coincident centres; nworld in {1,3} with different poses per world,
+     to it (coincident SAP projections), a cluster with coincident centres; nworld in {1,4} with different poses per world
+     (the 4th world has all geoms deep below the plane); plane first (world geom) or last (mocap body after the free bodies),
  (c) rows of N spheres (N = 2,3,6: SAP range/clamp logic, several ngeom values),
  (d) an explicit <pair> whose margin exceeds the geoms' margins.
 Oracle: differential - the contact multiset of every configuration equals that of (NXN, filter 0), which sends every
@@ -23,14 +26,18 @@ from mc.refs import colscene as cs
 ID = "C18"
 LEVEL = "exploration"
 RULE = (
-  "enumerate scenes (pair scenes: all type pairs x orientations x margins; 5-geom layouts x type rotations x margins x nworld; "
+  "enumerate scenes (pair scenes: all type pairs x orientations x margins x {static geom has the lower id, the higher id}, separations from "
+  "outside the margin to wholly behind the other geom; 5-geom layouts x type rotations x margins x nworld x {plane first, plane last}; "
   "sphere rows; explicit pair with large margin); every scene runs ALL 48 (broadphase, filter) configurations and compares each "
   "contact multiset with the unfiltered all-pairs run. non-trivial = the reference run has >=1 contact and >=1 candidate pair "
   "without contact (so filters both keep and reject something); distinct = hash of the scene spec"
 )
 BOUNDS = {
-  "quick": "36 type pairs x 2 orientations x 4 (margin,gap) x 6 worlds; 7 type rotations x 3 layouts x 2 margins x nworld {1,3}; rows N in {2,3,6}; 4 pair-margin scenes; x 48 configs",
-  "thorough": "as quick with 5 orientations and static/moving swap, rows N in {2,3,6,9,17,33}",
+  "quick": "36 type pairs x 2 orientations x 4 (margin,gap) x 8 worlds, static geom first; 36 type pairs x 1 orientation x 1 (margin,gap) x 8 worlds, "
+  "static geom last (mocap body for even seeds, static child body for odd seeds); 7 type rotations x 3 layouts x 2 margins x nworld {1,4}, plane first; "
+  "7 type rotations x 3 layouts x 1 margin x nworld 4, plane last; rows N in {2,3,6}; 4 pair-margin scenes; x 48 configs",
+  "thorough": "as quick with 5 orientations and static/moving swap; static geom last on {mocap, static child} x 2 orientations x 4 (margin,gap); "
+  "plane last for all multi scenes; rows N in {2,3,6,9,17,33}",
 }
 ASSUMPTIONS = [
   "differential oracle: (NXN, filter=0) is the reference configuration; contacts keyed by (world, geom pair), sorted by value",
@@ -59,11 +66,21 @@ def scenarios(tier, seed):
         for sw in swaps:
           mc = 0 if (margin and ta in BOXY and tb in BOXY) else 1
           out.append(dict(fam="pair", ta=ta, tb=tb, orient=o, margin=margin, gap=gap, swap=sw, variant=v, multiccd=mc))
+  # geom-id order: the static geom A declared after B's body, so that A (a plane, ...) has the higher geom id
+  a_bodies = (("mocap", "static")[v % 2],) if tier == "quick" else ("mocap", "static")
+  for ta, tb in cs.type_pairs():
+    for a_body in a_bodies:
+      for o in ("generic",) if tier == "quick" else ("generic", "aligned"):
+        for margin, gap in MG[2:3] if tier == "quick" else MG:
+          mc = 0 if (margin and ta in BOXY and tb in BOXY) else 1
+          out.append(dict(fam="pair", ta=ta, tb=tb, orient=o, margin=margin, gap=gap, swap=0, variant=v, multiccd=mc, a_body=a_body))
   for rot in range(len(MOV)):
     for layout in ("sweep", "ortho", "cluster"):
       for margin in (0.0, 0.03):
-        for nworld in (1, 3):
+        for nworld in (1, 4):
           out.append(dict(fam="multi", rot=rot, layout=layout, margin=margin, nworld=nworld, variant=v))
+          if nworld == 4 and (margin or tier != "quick"):
+            out.append(dict(fam="multi", rot=rot, layout=layout, margin=margin, nworld=nworld, variant=v, plane="last"))
   for n in (2, 3, 6) if tier == "quick" else (2, 3, 6, 9, 17, 33):
     for layout in ("sweep", "ortho"):
       for nworld in (1, 3):
@@ -103,16 +120,21 @@ def _multi(scn):
       ga = f'type="{t}" size="{space.fmt(tuple(float(sc * x) for x in cs._SIZE[t][1]))}"'
     bodies += f'<body name="b{k}"><freejoint/><geom name="g{k}" {ga}{mg}/></body>'
   opt = '<option><flag multiccd="disable"/></option>' if margin else ""
-  xml = (
-    f'<mujoco>{opt}<asset>{assets}</asset><worldbody><geom name="pl" type="plane" size="2 2 0.1" pos="0 0 -0.02" quat="0.9914449 0.0922959 -0.0922959 0"{mg}/>'
-    f"{bodies}</worldbody></mujoco>"
-  )
+  plane = f'<geom name="pl" type="plane" size="2 2 0.1" pos="0 0 -0.02" quat="0.9914449 0.0922959 -0.0922959 0"{mg}/>'
+  if scn.get("plane", "first") == "last":
+    # the plane gets the highest geom id: it hangs on a mocap body declared after the free bodies
+    world = f'{bodies}<body name="bpl" mocap="true">{plane}</body>'
+  else:
+    world = plane + bodies
+  xml = f"<mujoco>{opt}<asset>{assets}</asset><worldbody>{world}</worldbody></mujoco>"
   a, b = _basis()
   quats = [cs._GEN_Q[(v + k) % 4][k % 3] for k in range(4)]
   worlds = []
   for w in range(scn["nworld"]):
-    spacing = (0.11, 0.2, 0.9)[w]  # touching/overlapping, partly separated, all far apart
-    base = np.array([0.1, -0.05, 0.07 + 0.02 * w])
+    spacing = (0.11, 0.2, 0.9, 0.2)[w]  # touching/overlapping, partly separated, all far apart, partly separated
+    # worlds 0-2 rest on / hover above the plane; in world 3 every geom's bounding sphere is wholly below the plane surface
+    # (>= 0.3 deep, rbound + margin < 0.26): the plane is a half space, so these are contacts too
+    base = np.array([0.1, -0.05, 0.07 + 0.02 * w if w < 3 else -0.35])
     q = []
     for k in range(4):
       if scn["layout"] == "sweep":
@@ -147,6 +169,44 @@ def _row(scn):
       q += list(p) + [1.0, 0.0, 0.0, 0.0]
     worlds.append(np.array(q))
   return xml, worlds
+
+
+def _pair(scn):
+  """C04's pair scene (A static, B on a free body) -> dict(mjm, qs) or dict(outcome=...), with two dimensions added here:
+
+  * a_body: "world" = A is a world geom (geom id 0, B id 1: cs.build_pair); "mocap" / "static" = A hangs on a mocap body /
+    jointless child body declared AFTER B's body, so A has the higher geom id (id 1, B id 0);
+  * two more separations after C04's six: B's support point lies 2*rbound_B + margin + gap + 0.02 (resp. twice that) behind
+    A's supporting plane, i.e. B's whole bounding sphere inflated by the margin is behind it (for a plane A: B's centre is
+    deeper than rbound + margin below the surface - still a contact, a plane is a half space).
+  """
+  a_body = scn.get("a_body", "world")
+  ta, tb = (scn["tb"], scn["ta"]) if scn.get("swap") else (scn["ta"], scn["tb"])
+  v, margin, gap = scn["variant"], scn["margin"], scn["gap"]
+  qa, qb, n = cs.orientation(scn["orient"], v)
+  if ta == "plane":
+    n = cs.quat2mat(qa)[:, 2]
+  if a_body == "world":
+    b = cs.build_pair(scn)
+    if "outcome" in b:
+      return b
+    mjm, qs, gA, gB = b["mjm"], list(b["qs"]), 0, 1
+  else:
+    xml = cs.scene_xml(ta, tb, qa, margin, gap, v, option=cs.option_xml(scn))
+    a0 = xml.index('<geom name="gA"')
+    a1 = xml.index("/>", a0) + 2
+    attr = ' mocap="true"' if a_body == "mocap" else ""
+    xml = xml[:a0] + xml[a1:].replace("</worldbody>", f'<body name="bA"{attr}>{xml[a0:a1]}</body></worldbody>')
+    mjm, err = util.try_load(xml)
+    if mjm is None:
+      return dict(outcome="rejected_by_compiler", info=err)
+    gA, gB = 1, 0
+    if mjm.geom_bodyid[gA] != 2 or mjm.geom_bodyid[gB] != 1 or mjm.body_jntnum[2] != 0:
+      raise RuntimeError("harness: static geom A is not the last geom")
+    qs = list(cs.place(mjm, qb, n, [d for _, d in cs.d_cases(margin, gap)], gA=gA, gB=gB)[0])
+  behind = 2.0 * float(mjm.geom_rbound[gB]) + margin + gap + 0.02
+  qs += list(cs.place(mjm, qb, n, [-behind, -2.0 * behind], gA=gA, gB=gB)[0])
+  return dict(mjm=mjm, qs=qs)
 
 
 def _pairmargin(scn):
@@ -206,7 +266,7 @@ def execute(scn):
 
   fam = scn["fam"]
   if fam == "pair":
-    b = cs.build_pair(scn)
+    b = _pair(scn)
     if "outcome" in b:
       return dict(ok=True, nontrivial=False, key=util.sha(scn), **b)
     mjm, worlds = b["mjm"], b["qs"]
